@@ -9,8 +9,8 @@ use crate::{scenarios, seams};
 pub fn run(prefix: &str) {
     let reg = scenarios::registry();
     let e0 = Env::reference();
-    let e1 = Env { threads: 5, policy: "chaos".into(), sched_seed: 11, entropy_seed: 77, clock_seed: 5, context: Context::InWorker, cpus: 2, envvars_seed: 7, replay: None };
-    let e2 = Env { threads: 3, policy: "eager-steal".into(), sched_seed: 4, entropy_seed: 1234567, clock_seed: 9, context: Context::Siblings, cpus: 1, envvars_seed: 0, replay: None };
+    let e1 = Env { threads: 5, policy: "chaos".into(), sched_seed: 11, entropy_seed: 77, clock_seed: 5, context: Context::InWorker, cpus: 2, envvars_seed: 7, heap_seed: 3, replay: None };
+    let e2 = Env { threads: 3, policy: "eager-steal".into(), sched_seed: 4, entropy_seed: 1234567, clock_seed: 9, context: Context::Siblings, cpus: 1, envvars_seed: 0, heap_seed: 0, replay: None };
     let mut bad = 0;
     for s in reg.scenarios.iter().filter(|s| s.name.starts_with(prefix)) {
         for size in [Size::S, Size::M, Size::L] {
